@@ -15,8 +15,10 @@ pub struct C02;
 
 /// Option space of C02 (values quarantined as known-finding classes are listed in DESIGN §6).
 pub const SPACE: ConfSpace = ConfSpace {
-    exclude: &[],
-    exclude_values: &[],
+    // quarantined as known-finding classes (see known_findings.json): these values make
+    // rustfmt non-idempotent on a large part of the corpus
+    exclude: &["blank_lines_lower_bound"],
+    exclude_values: &[("indent_style", "Visual"), ("imports_indent", "Visual")],
     allow_2027: true,
     min_edition: "2015",
     max_extra: 4,
@@ -46,7 +48,7 @@ impl Property for C02 {
         "corpus chunks / generated programs, re-laid out, under a random configuration; oracle: fmt(fmt(x)) == fmt(x) byte for byte and the second run reports no error; judged only when the first run reports no error; non-trivial = first run changed the text and some output line is within 3 columns of max_width; distinct by case content"
     }
     fn enum_len(&self, g: &GenCtx) -> usize {
-        grid_len(g, 8_000, 400_000)
+        grid_len(g, 60_000, usize::MAX)
     }
     fn enum_case(&self, g: &GenCtx, i: usize) -> Option<Value> {
         let n = self.enum_len(g);
@@ -78,6 +80,17 @@ impl Property for C02 {
             } else {
                 "first-run-reports-error"
             });
+        }
+        // comments must stand at item / statement / list-element boundaries or inside
+        // function-body statements (the property's quantifier)
+        let edition = crate::fmt::opt(&opts, "edition").unwrap_or("2015").to_owned();
+        match comment_positions(src, &edition) {
+            Some(ps) => {
+                if ps.iter().any(|p| p.2 == CommentPos::Odd) {
+                    return Outcome::skip("comment-outside-claimed-positions");
+                }
+            }
+            None => return Outcome::skip("oracle-parse-failed"),
         }
         let o2 = format_text(&o1.text, &opts);
         let mut o = Outcome::pass();
